@@ -397,20 +397,18 @@ example : SpellOK ["a-b", "c_d"] [("a_b", .node [("x", .leaf 1)])] ∧
 /-! ### update / merge: later wins -/
 
 theorem update_nil (p : Priority) (old : Dict) (dflt : Option Cfg) : update p old [] dflt = some old := by
-  rw [update.eq_def]
+  simp [update, updateGo]
 
 theorem update_cons_leaf_new (old rest : Dict) (k0 : String) (c : Int) (dflt : Option Cfg) :
     update .new old ((k0, .leaf c) :: rest) dflt = update .new (dset old (canonicalName k0 old) (.leaf c)) rest dflt := by
-  rw [update.eq_def]
-  simp
+  simp [update, updateGo, leafWins]
 
 theorem update_cons_node_none (p : Priority) (old rest sub : Dict) (k0 : String) :
     update p old ((k0, .node sub) :: rest) none =
-      (update p (match dget old (canonicalName k0 old) with | some (.node s) => s | _ => []) sub none).bind
+      (update p (curOf old (canonicalName k0 old)) sub none).bind
         fun cur' => update p (dset old (canonicalName k0 old) (.node cur')) rest none := by
-  rw [update.eq_def]
-  simp only [truthy, Bool.false_eq_true, if_false]
-  cases update p (match dget old (canonicalName k0 old) with | some (.node s) => s | _ => []) sub none <;> simp
+  simp only [update, updateGo, subDefaults, truthy, Bool.false_eq_true, if_false, updateNode]
+  cases updateGo p sub (curOf old (canonicalName k0 old)) none <;> simp
 
 /-- **update_new_last_wins.** With priority `"new"` (the default, also what `merge` uses), the last scalar item of
 `new` is what `get` returns afterwards, whatever `old` and the earlier items were. -/
@@ -434,7 +432,7 @@ theorem update_new_last_wins (pre : Dict) (k : String) (c : Int) : ∀ (old d' :
       exact ih _ d' h
     | node sub =>
       rw [update_cons_node_none] at h
-      cases hu : update .new (match dget old (canonicalName k0 old) with | some (.node s) => s | _ => []) sub none with
+      cases hu : update .new (curOf old (canonicalName k0 old)) sub none with
       | none => rw [hu] at h; simp at h
       | some cur' =>
         rw [hu] at h
@@ -457,10 +455,9 @@ theorem merge_last_wins (ds : List Dict) (pre : Dict) (k : String) (c : Int) (d'
 theorem update_cons_leaf_old (old rest : Dict) (k0 : String) (c : Int) :
     update .old old ((k0, .leaf c) :: rest) none =
       update .old (if dhas old (canonicalName k0 old) then old else dset old (canonicalName k0 old) (.leaf c)) rest none := by
-  rw [update.eq_def]
   by_cases h : dhas old (canonicalName k0 old) = true
-  · simp [h, truthy]
-  · simp [h]
+  · simp [update, updateGo, leafWins, h, truthy]
+  · simp [update, updateGo, leafWins, h]
 
 /-- **update_old_keeps_old.** With priority `"old"` and scalar new values, nothing that is already in `old` changes
 (new keys are only added): "the old dictionary has preference". -/
